@@ -62,18 +62,20 @@ Section Reader.
         end
     end.
 
-  (* one call of the closure read(size); fuel: every iteration consumes >= 1 source byte *)
-  Definition read (size : nat) (st : rst) : list N * rst :=
-    let st' := fill (S (length (rest (source st)))) size st in
+  (* one call of the closure read(size).  [ffuel] bounds the iterations of the
+     while loop; every iteration consumes >= 1 source byte, so any value above
+     the number of source bytes left is enough (it is computed once per transfer). *)
+  Definition read (ffuel : nat) (size : nat) (st : rst) : list N * rst :=
+    let st' := fill ffuel size st in
     (firstn size (buf st'),
      {| buf := skipn size (buf st'); carry := carry st'; source := source st' |}).
 
   (* _send_data's loop: read blocks of bs until the first short one *)
-  Fixpoint read_blocks (fuel : nat) (bs : nat) (st : rst) : list (list N) :=
+  Fixpoint read_blocks (ffuel : nat) (fuel : nat) (bs : nat) (st : rst) : list (list N) :=
     match fuel with
     | O => []
-    | S f => let (d, st') := read bs st in
-             if (length d =? bs)%nat then d :: read_blocks f bs st' else [d]
+    | S f => let (d, st') := read ffuel bs st in
+             if (length d =? bs)%nat then d :: read_blocks ffuel f bs st' else [d]
     end.
 End Reader.
 Arguments buf {F}. Arguments carry {F}. Arguments source {F}.
@@ -87,9 +89,9 @@ Definition netascii_init (content : list N) (ch : list nat) : rst bool :=
 
 (* all blocks of a transfer; fuel = upper bound on the number of blocks *)
 Definition octet_blocks (bs : nat) (content : list N) (ch : list nat) : list (list N) :=
-  read_blocks unit octet_scan (S (length content)) bs (octet_init content ch).
+  read_blocks unit octet_scan (S (length content)) (S (length content)) bs (octet_init content ch).
 Definition netascii_blocks (always_skip : bool) (bs : nat) (content : list N) (ch : list nat) : list (list N) :=
-  read_blocks bool (scan_chunk always_skip) (S (2 * length content)) bs (netascii_init content ch).
+  read_blocks bool (scan_chunk always_skip) (S (length content)) (S (2 * length content)) bs (netascii_init content ch).
 
 (* ---- specifications ---- *)
 (* whole-buffer reference conversion: CR LF kept, every other CR or LF -> CR LF *)
@@ -107,9 +109,16 @@ Fixpoint netascii_spec (l : list N) : list N :=
   end.
 
 (* block framing: full blocks, then one block shorter than bs (possibly empty) *)
+(* [shorter l n] = (length l <? n), in time O(n) *)
+Fixpoint shorter (l : list N) (n : nat) : bool :=
+  match n, l with
+  | O, _ => false
+  | S _, [] => true
+  | S n', _ :: r => shorter r n'
+  end.
 Fixpoint split_go (fuel : nat) (bs : nat) (l : list N) : list (list N) :=
   match fuel with
   | O => [l]
-  | S f => if (length l <? bs)%nat then [l] else firstn bs l :: split_go f bs (skipn bs l)
+  | S f => if shorter l bs then [l] else firstn bs l :: split_go f bs (skipn bs l)
   end.
 Definition split_blocks (bs : nat) (l : list N) : list (list N) := split_go (length l) bs l.
